@@ -347,13 +347,8 @@ class PersistenceImager(TransformerMixin):
         self._pixel_size = pixel_size
         self._birth_range = birth_range
         self._pers_range = pers_range
-        self._width = birth_range[1] - birth_range[0]
-        self._height = pers_range[1] - pers_range[0]
-        self._resolution = (
-            int(self._width / self._pixel_size),
-            int(self._height / self._pixel_size),
-        )
-        self._create_mesh()
+        # round the ranges up to a whole number of pixels, exactly as the setters do
+        self.pixel_size = pixel_size
 
     @property
     def width(self):
@@ -415,8 +410,8 @@ class PersistenceImager(TransformerMixin):
             * self.pixel_size
         )
         self._resolution = (
-            int(self.width / self.pixel_size),
-            int(self.height / self.pixel_size),
+            int(round(self.width / self.pixel_size)),
+            int(round(self.height / self.pixel_size)),
         )
         self._create_mesh()
 
@@ -440,8 +435,8 @@ class PersistenceImager(TransformerMixin):
             * self._pixel_size
         )
         self._resolution = (
-            int(self.width / self.pixel_size),
-            int(self.height / self.pixel_size),
+            int(round(self.width / self.pixel_size)),
+            int(round(self.height / self.pixel_size)),
         )
         self._create_mesh()
 
@@ -465,8 +460,8 @@ class PersistenceImager(TransformerMixin):
             * self._pixel_size
         )
         self._resolution = (
-            int(self.width / self.pixel_size),
-            int(self.height / self.pixel_size),
+            int(round(self.width / self.pixel_size)),
+            int(round(self.height / self.pixel_size)),
         )
         self._create_mesh()
 
